@@ -11,6 +11,7 @@ import (
 	"testing"
 	"time"
 
+	dtls "github.com/pion/dtls/v3"
 	dtlsflight "github.com/pion/dtls/v3/internal/flight"
 	dtlshandshake "github.com/pion/dtls/v3/internal/handshake"
 	"github.com/pion/dtls/v3/internal/zzverif/lib/pbt"
@@ -32,14 +33,17 @@ func TestReplay(t *testing.T) { pbt.Replay(t) }
 // delivered with a source address, an order and a delay chosen by the scenario: the harness is
 // the network (and the off-path attacker), it holds no keys.
 type Case struct {
-	Ver    int    `json:"ver"`            // 12 | 13
-	Suite  uint16 `json:"suite"`          // 0 = default
-	CIDC   int    `json:"cidc"`           // scen.EP.CID encoding: 0 absent, -1 send-only, 1000 zero length, n>0 length
-	CIDS   int    `json:"cids"`           //
-	RRCOff bool   `json:"rrcoff"`         // the client does not offer return_routability_check
-	Obs    string `json:"obs"`            // observed endpoint "C" | "S"
-	Steps  []Step `json:"steps"`          //
-	Note   string `json:"note,omitempty"` // grid label
+	Ver    int    `json:"ver"`    // 12 | 13
+	Suite  uint16 `json:"suite"`  // 0 = default
+	CIDC   int    `json:"cidc"`   // scen.EP.CID encoding: 0 absent, -1 send-only, 1000 zero length, n>0 length
+	CIDS   int    `json:"cids"`   //
+	RRCOff bool   `json:"rrcoff"` // the client does not offer return_routability_check
+	// RRCSrvHook (with RRCOff, DTLS 1.2): the client does offer it, but the server's application strips the
+	// extension from the ServerHello with the public WithServerHelloMessageHook: not negotiated either
+	RRCSrvHook bool   `json:"rrcsrvhook,omitempty"`
+	Obs        string `json:"obs"`            // observed endpoint "C" | "S"
+	Steps      []Step `json:"steps"`          //
+	Note       string `json:"note,omitempty"` // grid label
 }
 
 // Step kinds:
@@ -149,7 +153,8 @@ func run(c Case, r *pbt.R) {
 	var gens []scen.Gen13
 	stop := scen.CaptureGens13(&gens)
 	defer stop()
-	if c.RRCOff {
+	srvHook := c.RRCOff && c.RRCSrvHook && c.Ver == 12
+	if c.RRCOff && !srvHook {
 		dtlshandshake.VerifFlightHook = stripRRC
 		defer func() { dtlshandshake.VerifFlightHook = nil }()
 	}
@@ -157,6 +162,19 @@ func run(c Case, r *pbt.R) {
 		cEP, sEP := epsFor(&c)
 		env := scen.NewEnv()
 		env.Log = &scen.LogSink{Keep: os.Getenv("VERIF_DEBUG") != ""}
+		if srvHook {
+			env.ExtraServer = append(env.ExtraServer, dtls.WithServerHelloMessageHook(func(sh handshake.MessageServerHello) handshake.Message {
+				var keep []extension.Value
+				for _, e := range sh.Extensions {
+					if e.ExtensionType() != extension.TypeReturnRoutabilityCheck {
+						keep = append(keep, e)
+					}
+				}
+				sh.Extensions = keep
+
+				return &sh
+			}))
+		}
 		p := scen.NewPair(env, &cEP, &sEP)
 		defer p.Close()
 		p.Handshake(10 * time.Minute)
@@ -714,6 +732,7 @@ func genCase(t *rapid.T) Case {
 		c.CIDS = rapid.SampledFrom(cidCodes).Draw(t, "cids")
 	}
 	c.RRCOff = rapid.IntRange(0, 4).Draw(t, "rrcoff") == 0
+	c.RRCSrvHook = c.RRCOff && rapid.Bool().Draw(t, "rrcsrvhook")
 	c.Obs = rapid.SampledFrom([]string{"S", "S", "C"}).Draw(t, "obs")
 	n := rapid.IntRange(1, 8).Draw(t, "nsteps")
 	for i := 0; i < n; i++ {
